@@ -314,7 +314,7 @@ fn case_variants(w: &str) -> Vec<String> {
         .collect()
 }
 
-fn gen_instant(rng: &mut Rng, whole_second: bool) -> DateTime<Utc> {
+pub fn gen_instant(rng: &mut Rng, whole_second: bool) -> DateTime<Utc> {
     let secs = match rng.below(10) {
         0 => rng.range(-62_167_219_200, 253_402_300_799),  // years 0..9999
         1 => rng.range(-5_000_000_000, -1_000_000_000),    // 1811..1938: local mean time offsets with seconds
@@ -336,7 +336,7 @@ fn gen_instant(rng: &mut Rng, whole_second: bool) -> DateTime<Utc> {
     DateTime::from_timestamp(secs, nanos).unwrap()
 }
 
-fn render(t: &DateTime<Utc>, fmt: &str, zone: &str) -> Option<String> {
+pub fn render(t: &DateTime<Utc>, fmt: &str, zone: &str) -> Option<String> {
     let tz = tz_of(zone)?;
     guarded(|| canonical_string(&Value::Timestamp(*t), Some(fmt), &tz)).ok().flatten()
 }
